@@ -2,6 +2,7 @@ package props
 
 import (
 	"fmt"
+	"math"
 	"math/rand"
 	"sort"
 
@@ -90,6 +91,26 @@ func runC15(c *core.Ctx) {
 	}
 	if !sortAll(c, keys, r) {
 		return
+	}
+	if c.Index%64 == 9 {
+		// zero-size elements: lengths beyond MaxInt/2, where (lo+hi)/2 overflows
+		type z = struct{}
+		for _, ln := range []int{math.MaxInt/2 + 2, math.MaxInt - 1, math.MaxInt, 1 << 62} {
+			hs := make([]z, ln)
+			var above, below int
+			if p, pv := core.Catch(func() {
+				above = slices.BinarySearchFunc(hs, func(z) bool { return true })  // target above every element
+				below = slices.BinarySearchFunc(hs, func(z) bool { return false }) // target below every element
+			}); p {
+				c.Violate("BinarySearchFunc:huge-length-panic", fmt.Sprintf("BinarySearchFunc on %d zero-size elements panicked: %v", ln, pv), nil)
+				return
+			}
+			if above != ln || below != 0 {
+				c.Violate("BinarySearchFunc:huge-length", fmt.Sprintf("BinarySearchFunc on %d zero-size elements returned %d / %d, expected %d / 0", ln, above, below, ln), nil)
+				return
+			}
+		}
+		c.Count("huge_zero_size_searches", 1)
 	}
 	if c.Index%4 == 1 {
 		// McIlroy's "killer adversary": a comparator that decides the values while
@@ -209,6 +230,35 @@ func sortAll(c *core.Ctx, keys []int, r *core.Rand) bool {
 		for i, k := range keys {
 			fs[i] = float64(k) / 4
 			ss[i] = fmt.Sprintf("%04d", k&0xfff)
+		}
+		// other ordered element types (specialised fast paths live here): both signs of
+		// int8/int16, uint8, float32, named types
+		{
+			type myI8 int8
+			i8, u8, i16, f32, n8 := make([]int8, n), make([]uint8, n), make([]int16, n), make([]float32, n), make([]myI8, n)
+			for i, k := range keys {
+				i8[i], u8[i], i16[i], f32[i], n8[i] = int8(k*37), uint8(k*37), int16(k*1237), float32(k)/8, myI8(k*37)
+			}
+			d8 := append([]int8(nil), i8...)
+			slices.Sort(i8)
+			slices.Sort(u8)
+			slices.Sort(i16)
+			slices.Sort(f32)
+			slices.Sort(n8)
+			slices.SortDesc(d8)
+			for i := 1; i < n; i++ {
+				if i8[i-1] > i8[i] || u8[i-1] > u8[i] || i16[i-1] > i16[i] || f32[i-1] > f32[i] || n8[i-1] > n8[i] || d8[i-1] < d8[i] {
+					return fail("Sort:small-ordered-types", fmt.Sprintf("Sort/SortDesc on int8/uint8/int16/float32/named int8 is out of order at position %d (n=%d)", i, n))
+				}
+			}
+			var c8, e8 [256]int
+			for i, k := range keys {
+				c8[uint8(int8(k*37))]++
+				e8[uint8(i8[i])]++
+			}
+			if c8 != e8 {
+				return fail("Sort:small-ordered-types", "Sort on int8 is not a permutation of its input")
+			}
 		}
 		slices.Sort(fs)
 		slices.SortDesc(ss)
